@@ -662,6 +662,11 @@ func (w *world) exec(i int, st Step) {
 			id = fmt.Sprint(9000 + st.K)
 		}
 		var rec string
+		if st.ID == "quoted" {
+			// the digits of the callback's id as a JSON string: another id, one the
+			// server never issued - an unsolicited reply
+			id = strconv.Quote(id)
+		}
 		switch st.Out {
 		case "error":
 			rec = fmt.Sprintf(`{"jsonrpc":"2.0","id":%s,"error":{"code":-32050,"message":"peer says no %d","data":{"p":%d}}}`, id, st.D, st.K)
